@@ -58,24 +58,24 @@ macro "poll_half" poll:ident phc:ident hp:ident hm:ident : tactic => `(tactic| (
   cases $poll:ident with
   | clockErr e =>
     simp only [Poll.inputs, inputsAt] at $hp:ident
-    simp [rs_eval, rs_code, abstractedP, ($hp:ident).1, Poll.events, Poll.inputs, clockId]
+    simp [rs_eval, rs_code, abstractedP, ($hp:ident).1, Poll.events, Poll.inputs, clockId, ctimespecValue]
   | data a t =>
     simp only [Poll.inputs, inputsAt] at $hp:ident
     obtain ⟨h1, h2, h3, _⟩ := $hp:ident
     simp only [Nat.add_assoc, Nat.reduceAdd] at h1 h2 h3
     rcases $phc:ident with _ | ⟨r, q⟩
-    · simp [rs_eval, rs_code, abstractedP, h1, h2, h3, Poll.events, Poll.inputs, Poll.msg, clockId, phcValue, trackingValue,
+    · simp [rs_eval, rs_code, abstractedP, h1, h2, h3, Poll.events, Poll.inputs, Poll.msg, clockId, ctimespecValue, phcValue, trackingValue,
         sendResult, Nat.add_assoc]
     · have hne : t.refid ≠ r := $hm:ident r q rfl
       have hne' : ¬ ((r : Int) = (t.refid : Int)) := fun h => hne (Int.ofNat_inj.mp h).symm
-      simp [rs_eval, rs_code, abstractedP, h1, h2, h3, Poll.events, Poll.inputs, Poll.msg, clockId, phcValue, trackingValue,
+      simp [rs_eval, rs_code, abstractedP, h1, h2, h3, Poll.events, Poll.inputs, Poll.msg, clockId, ctimespecValue, phcValue, trackingValue,
         sendResult, Nat.add_assoc, hne']
   | noReply a g =>
     simp only [Poll.inputs, inputsAt] at $hp:ident
     obtain ⟨h1, h2, h3, h4, _⟩ := $hp:ident
     simp only [Nat.add_assoc, Nat.reduceAdd] at h1 h2 h3 h4
     cases g <;>
-      simp [rs_eval, rs_code, abstractedP, h1, h2, h3, h4, Poll.events, Poll.inputs, Poll.msg, clockId, sendResult,
+      simp [rs_eval, rs_code, abstractedP, h1, h2, h3, h4, Poll.events, Poll.inputs, Poll.msg, clockId, ctimespecValue, sendResult,
         Nat.add_assoc] at h4 ⊢ <;> simp [rs_eval, h4]))
 
 /-- the poll half when the send to the writer fails: it panics -/
@@ -87,15 +87,15 @@ macro "poll_half_fail" poll:ident phc:ident hp:ident hm:ident hs:ident : tactic 
     obtain ⟨h1, h2, h3, _⟩ := $hp:ident
     simp only [Nat.add_assoc, Nat.reduceAdd] at h1 h2 h3
     rcases $phc:ident with _ | ⟨r, q⟩
-    · simp [rs_eval, rs_code, abstractedP, h1, h2, h3, Poll.msg, phcValue, trackingValue, sendResult, Nat.add_assoc]
+    · simp [rs_eval, rs_code, abstractedP, h1, h2, h3, Poll.msg, phcValue, trackingValue, ctimespecValue, sendResult, Nat.add_assoc]
     · have hne : t.refid ≠ r := $hm:ident r q rfl
       have hne' : ¬ ((r : Int) = (t.refid : Int)) := fun h => hne (Int.ofNat_inj.mp h).symm
-      simp [rs_eval, rs_code, abstractedP, h1, h2, h3, Poll.msg, phcValue, trackingValue, sendResult, Nat.add_assoc, hne']
+      simp [rs_eval, rs_code, abstractedP, h1, h2, h3, Poll.msg, phcValue, trackingValue, ctimespecValue, sendResult, Nat.add_assoc, hne']
   | noReply a g =>
     simp only [Poll.inputs, inputsAt] at $hp:ident
     obtain ⟨h1, h2, h3, h4, _⟩ := $hp:ident
     simp only [Nat.add_assoc, Nat.reduceAdd] at h1 h2 h3 h4
-    cases g <;> simp [rs_eval, rs_code, abstractedP, h1, h2, h3, h4, Poll.msg, sendResult, Nat.add_assoc] at h4 ⊢ <;>
+    cases g <;> simp [rs_eval, rs_code, abstractedP, h1, h2, h3, h4, Poll.msg, ctimespecValue, sendResult, Nat.add_assoc] at h4 ⊢ <;>
       try simp [rs_eval, h4]))
 
 set_option maxRecDepth 8000 in
@@ -148,24 +148,25 @@ theorem poller_loop_tie (ks : List Thread) (fs : List (String × Value)) (phc : 
       simp [rs_eval, rs_code, abstractedP, hw]
       simp [eventsBefore, inputsBefore, PIter.events, PIter.inputs, chanValue, hpoll, hwt, RecvT.value, Nat.add_assoc]
   case a => omega
-  rw [evalWhile_step (n := F + 95)]
+  rw [evalWhile_step]
   case hc => simp [rs_eval]
   cases e with
   | abort poll =>
     simp only [PEnd.inputs, inputsAt_append, inputsAt, and_true] at hend
     obtain ⟨hp, hw⟩ := hend
     have hm : poll.phcMiss phc := hmissE
-    rw [stageA (n := F + 94) (v := .unit) (evs1 := poll.events true) (c1 := (poll.inputs true).length)]
+    rw [stageA (v := .unit) (evs1 := poll.events true) (c1 := (poll.inputs true).length)]
     case hA => poll_half poll phc hp hm
     simp only [RecvT.value, RMsg.value] at hw
     simp [rs_eval, rs_code, abstractedP, hw]
-    rw [evalWhile_succ]
+    -- a flag-controlled `while` goes round once more and finds its condition false; a `loop` has left by `break`
+    try rw [evalWhile_succ]
     simp [rs_eval, loopResult, loopEvents, PEnd.events, PEnd.inputs, RecvT.value, RMsg.value, chanValue, Nat.add_assoc]
   | sendFailed poll =>
     have hs : poll.sends = true := hsend poll rfl
     simp only [PEnd.inputs] at hend
     have hm : poll.phcMiss phc := hmissE
-    rw [stageA_panic (n := F + 94)]
+    rw [stageA_panic]
     case hA => poll_half_fail poll phc hend hm hs
     simp [rs_eval, loopResult]
 
